@@ -1,4 +1,5 @@
 #!/bin/bash
+export VERIF_EVIDENCE_DIR=/tmp/verif-mut-evidence
 # usage: evalmut.sh <mutdir> <property> <name>   (mutdir holds patch.diff, demo_test.go, meta.json)
 # 1. confirms in a scratch worktree: suite passes with the patch, demo fails with it, demo passes without it
 # 2. applies the patch to /repo, runs /verif/check <property> quick (and thorough if QUICK misses and THOROUGH=1), reverts
